@@ -31,7 +31,9 @@ CONSTANTS Max,        \* configured maximum payload (the driver uses the same va
           B0Set,      \* first header bytes to enumerate
           MSet,       \* mask bits to enumerate
           Fine,       \* TRUE: every cut; FALSE: section boundaries only
-          WithFol,    \* raw mode: also the variants with a following frame
+          WithFol,    \* raw mode: also the variants with a following (fixed, small) frame
+          NRaw,       \* raw mode: number of arbitrary frames in the stream (1, or 2: every pair of templates,
+                      \* the first one complete, so that the frame boundary is crossed for every pair of classes)
           Mode,       \* "raw" | "enc"
           NEnc,       \* enc mode: number of frames (1 or 2)
           BUG_NegLen,
@@ -128,9 +130,14 @@ AddRaw ==
              LET f == Frame(b0, m, lc) IN
              /\ frames' = <<f>>
              /\ Emit([E0 EXCEPT !.ev = "Bytes", !.segs = SegsOf(f)])
-     \/ /\ WithFol /\ Len(frames) = 1
+     \/ /\ WithFol /\ NRaw = 1 /\ Len(frames) = 1
         /\ frames' = Append(frames, Follower)
         /\ Emit([E0 EXCEPT !.ev = "Bytes", !.segs = SegsOf(Follower)])
+     \/ /\ NRaw = 2 /\ Len(frames) = 1 /\ frames[1].lc.gl >= 0 /\ frames[1].lc.gl <= Max
+        /\ \E b0 \in B0Set, m \in MSet, lc \in RawLCs :
+             LET f == Frame(b0, m, lc) IN
+             /\ frames' = Append(frames, f)
+             /\ Emit([E0 EXCEPT !.ev = "Bytes", !.segs = SegsOf(f)])
   /\ UNCHANGED <<started, pos, fi, rl, wl, dreset, dlen, lastk>>
 
 AddEnc ==
